@@ -3,7 +3,7 @@ import re
 from vcore import Case, Harness, SDK_INCLUDES, sdk_sources
 
 ID = 'C06'
-GEN = []
+GEN = ['MetricsTemporal']
 LEAN_TARGETS = ['OtelVerif.Props.C06']
 THEOREMS = ['Otel.C06.' + t for t in (
     # the inductive invariant and the refinement to the specification (storage level)
@@ -20,8 +20,10 @@ THEOREMS = ['Otel.C06.' + t for t in (
     'every_handle_counts_cumulative', 'every_handle_counts_delta', 'every_view_stream_registered',
     # record/collect races: every interleaving of add / swap / build steps
     'sched_conservation', 'sched_conservation_quiescent', 'sched_no_lost_update',
+    # literal facts of the source text the model depends on (generated fragment)
+    'gen_fast_path', 'gen_sum_signs',
     # map algebra the above stands on
-)] + ['Otel.Temporal.' + t for t in ('valAt_addTo', 'valAt_mergeInto', 'valAt_mergeAll', 'valAt_eq_lookup', 'NoDup_mergeAll')]
+)] + ['Otel.Temporal.' + t for t in ('valAt_addTo', 'valAt_mergeInto', 'valAt_mergeAll', 'valAt_eq_lookup', 'NoDup_mergeAll', 'fastPath_def')]
 HARNESSES = [Harness('s_c06', ['harness/s_c06.cc'], sdk_srcs=sdk_sources('common', 'resource', 'version', 'metrics'),
                      includes=SDK_INCLUDES)]
 H = 's_c06'
